@@ -36,8 +36,7 @@ def _analyse(pid, root):
     cx = core.Context(pid, None, 'quick', 0)
     try:
         cx.repo = core.Repo(root)
-        mod = importlib.import_module('flowlint.props.' + pid.lower())
-        mod.run(cx)
+        core.run_rules(cx, pid)
         err = None
     except core.AnalysisError as e:
         err = str(e)
@@ -111,6 +110,6 @@ def run(cx, pid):
     if missed or alarms:
         # a broken checker is not a verdict about /repo
         cx.obligations = [o for o in cx.obligations if o['rule'] != 'SELFTEST' or o['status'] == 'discharged']
-        raise core.AnalysisError('self-test failed: checker silent on breaking variant(s) %s; alarm on twin(s) %s' % (missed, alarms))
+        raise core.AnchorError('self-test failed: checker silent on breaking variant(s) %s; alarm on twin(s) %s' % (missed, alarms))
     if n_break == 0:
         cx.note('no seeded breaking variant for this property')
